@@ -44,6 +44,31 @@ CHECKS = {
         technique="stateless model checking of the real code: controlled scheduler over real threads, depth-first enumeration of all interleavings within a preemption bound",
         text="2-4 real threads making 1-3 calls each on clones or a shared &Unimock in seven scenario families (response chain, overlapping exact patterns, ordered ranges with inner chain, ordered across methods, single-use value, ordered+unordered, slot overrun). Every schedule with <= 2 preemptions (quick), <= 3 plus unbounded for 2-thread scenarios (thorough) runs to completion; on each: per-pattern position multiset, slot bookkeeping, final counters and verdict equal to some sequential execution of the real mock, no deadlock. Failures are replayed twice before being reported.",
         note=T_NOTE),
+    "C08": dict(
+        engine="S+T", category="model_checking", design="3/C08",
+        technique="bounded exhaustive exploration of call histories over all mock-error kinds x instance/thread routings on the real runtime (lock-step model), plus stateless model checking of concurrent panicking calls under a controlled scheduler",
+        text="Sequential: every history of depth 2 (all four routings: original/clone x caught/propagated to a thread boundary), depth 3 (quick: one routing; thorough: all) and depth 4 (thorough, two routings) over 16 calls covering 11 mock-error kinds, 3 user-panic origins and accepted calls; after dropping the clones the original's verification must fail iff the model saw a mock-induced panic and then contain every such panic's text in order; otherwise exactly the expectation lines. Concurrent: 2-3 threads x 1-2 panicking calls on clones, every schedule with <= 2 (quick) / <= 3 (thorough) preemptions: number of recorded errors equals number of mock-induced panics and the verdict text carries each thread's errors in program order. Thorough repeats the sequential half on the no_std+spin-lock build (clone-induced errors only, as the property says).",
+        note=S_NOTE + " " + T_NOTE),
+    "C09": dict(
+        engine="S", category="model_checking", design="3/C09",
+        technique="explicit-state BFS over lifecycle event sequences on the real objects, states merged on the lifecycle model state which is checked against the implementation snapshot after every event",
+        text="Events: clone(i), drop(i), call(i), failing call(i), provided-method call(i) (internal helper clone), make_ref(i, clone of i), verify(i), report(), no_verify_in_drop(i), move the original to another thread and drop / verify it; <= 4 instances. Every event's outcome (silent / value / which refusal / failed-with-errors / failed-with-expectations / exit code) must equal the lifecycle model's, and the H3 instance() snapshot (original flag, verify-in-drop flag, live handle count, helper present, lent values) of every live instance must equal the model state. Quick: depth 6; thorough: to the fixpoint - the complete reachable state space within the caps (109,788 states on the pinned tree).",
+        note="Oracle = lifecycle model in harness/vh/src/bin/c09.rs derived from the property statement; states merged up to permutation of clone slots (events are symmetric in clone identity). std build only; report() on a clone is unspecified and not in the alphabet."),
+    "C12": dict(
+        engine="S+T+G", category="model_checking", design="3/C12",
+        technique="bounded exhaustive enumeration of return shapes x configuration paths x request routings with instrumented tokens on the real runtime; stateless model checking of racing requests under a controlled scheduler; exhaustive sweep of builder call chains against rustc",
+        text="Instrumented tokens count constructions, clones and drops. Every shape (plain, Option, Result both arms, Result<&T,Tok>, (&T,Tok,Tok), Option/Vec/Poll of Result<&str,Tok>, and Clone twins) x every single-use path (some_call/next_call returns, .once(), .once().then()) and multi-use path (each_call, n_times(1..3), at_least_times, single-use head + multi-use tail) x every routing of 0..3 (quick) / 0..4 (thorough) requests over original and clone: first request gets exactly the configured structure, every later request of a single-use value panics, one clone per multi-use request, nothing dropped before delivery / teardown, everything dropped exactly once. Race: 2-4 threads requesting one single-use value, all schedules within the preemption bound: exactly one winner, losers panic, one drop.",
+        note=S_NOTE + " " + T_NOTE + " Duplication of a non-Clone value itself is excluded by the type system (forbid(unsafe_code))."),
+    "C13": dict(
+        engine="S+T", category="model_checking", design="3/C13",
+        technique="bounded exhaustive enumeration of lending operation sequences on the real runtime with instrumented payloads; stateless model checking of concurrent make_ref under a controlled scheduler",
+        text="All sequences of length 4 (quick) / 6 (thorough) over {make_ref<P1>, make_ref<P2>, borrowed returns() call, answer using make_ref, provided method lending through the delegation helper, make_mut<P1>, answer using make_mut, &mut provided method} x {original, clone}: after every step every held reference still reads its own intact payload, addresses are pairwise distinct, only what an exclusive operation on the same instance releases has been dropped; at the end everything is dropped exactly once, clone-owned values with the clone. Long chains of 1024 and 4096 values on a 2 MiB stack. Concurrent: 2-3 threads x 1-3 make_ref on one shared &Unimock, all schedules at the OnceCell insertion points within the bound.",
+        note="Trusted: once_cell's synchronisation; the harness keeps raw pointers only to values the property says are still lent. " + T_NOTE),
+    "C18": dict(
+        engine="S", category="model_checking", design="3/C18",
+        technique="exhaustive enumeration of metamorphic relation instances (clause shuffles, call routings, interleaved twin mocks, generic instantiations) with a differential oracle on the real runtime",
+        text="(a) two base lists of 6 clauses, every sublist of >= 2 clauses, every admissible shuffle x every history of depth 3 (quick) / 4 (thorough); (b) every history x every assignment of its calls to original / clone 1 / clone 2; (c) every pair of depth-2 histories x every interleaving on two mocks built from the same clauses; (d) every pattern list over two instantiations of a generic method x every call sequence. Compared with the baseline run: every call's outcome (value or panic text), all counters, ordered index, recorded errors, verdict line multiset.",
+        note="Pure differential oracle: the baseline run of the real mock is the expected value; no reference model involved."),
 }
 
 NOT_YET = "check not built yet (work in progress; see DESIGN.md section 3)"
